@@ -147,13 +147,14 @@ def run(ctx):
     # ---- 2. build, drive the real code
     bin_gocql = vf.build_gotest(ctx, ".", ["common", "c18"])
     bin_lz4 = vf.build_gotest(ctx, "lz4", ["c18lz4"])
-    paths = {k: os.path.join(ctx.tmp, "vec_%s.ndjson" % k) for k in ("snappy", "lz4", "frames", "wire", "resp")}
+    paths = {k: os.path.join(ctx.tmp, "vec_%s.ndjson" % k) for k in ("snappy", "lz4", "frames", "wire", "resp", "push")}
     jobs = [
         ("snappy", bin_gocql, "TestVfC18Codec", {"VF_C18_OUT": paths["snappy"], "VF_C18_STREAMS": sp}),
         ("lz4", bin_lz4, "TestVfC18Codec", {"VF_C18_OUT": paths["lz4"], "VF_C18_STREAMS": sp}),
         ("frames", bin_gocql, "TestVfC18Frames", {"VF_C18_FRAMES": paths["frames"]}),
         ("wire", bin_gocql, "TestVfC18Conns", {"VF_C18_WIRE": paths["wire"]}),
         ("resp", bin_gocql, "TestVfC18Resp", {"VF_C18_RESP": paths["resp"]}),
+        ("push", bin_gocql, "TestVfC18Push", {"VF_C18_PUSH": paths["push"]}),
     ]
     summ = {}
     with cf.ThreadPoolExecutor(3) as ex:
@@ -177,7 +178,7 @@ def run(ctx):
     notes_nonstrict = []
     states, trans, undecided, judged, unjudged = gstates, gtrans, 0, 0, 0
     chosen = []
-    for k in ("snappy", "lz4", "frames", "wire", "resp"):
+    for k in ("snappy", "lz4", "frames", "wire", "resp", "push"):
         sel, skipped = _select(ctx, vec[k]) if k in ("snappy", "lz4") else (vec[k], 0)
         unjudged += skipped
         chosen += sel
@@ -242,7 +243,7 @@ def run(ctx):
             return len(v["stream"]) > 5
         if v["k"] in ("frame", "wire"):
             return v["flags"] % 2 == 1
-        return v["flag"]
+        return v.get("flag", False)
     allv = [v for k in vec for v in vec[k]]
     distinct = {json.dumps([v["k"], v.get("alg"), v.get("enc") or v.get("stream") or v.get("wire") or v.get("body")]) for v in chosen if nontrivial(v)}
     ops = sorted({v["op"] for v in vec["wire"]})
@@ -262,6 +263,11 @@ def run(ctx):
                                supported_sets=9, configured=["none", "snappy", "lz4", "vfxor"], protocols=[3, 4],
                                frames_without_logical_pair=summ["wire"]["unpaired"]),
         response_scenarios=len(vec["resp"]), response_crashes=summ["resp"]["crashes"],
+        server_to_driver=dict(scenarios=summ["push"]["scenarios"], crashes=summ["push"]["crashes"],
+                              frames_forwarded=sum(1 for v in vec["push"] if v["k"] == "srv"),
+                              compressed_frames=sum(1 for v in vec["push"] if v["k"] == "srv" and v["flag"]),
+                              compressed_pushed_events=sum(1 for v in vec["push"] if v["k"] == "srv" and v["flag"] and v["stream"] < 0),
+                              opcodes=sorted({v["op"] for v in vec["push"] if v["k"] == "srv"})),
         large_bodies_go_roundtrip_only=dict(max_bytes=summ["snappy"]["big_max"], ok={a: summ[a]["big_ok"] for a in ("snappy", "lz4")}),
         samples=[dict(kind="enc", alg="lz4", body=enc_s.get("body"), enc=enc_s.get("enc")),
                  dict(kind="dec", alg="snappy", stream=dec_s.get("stream"), out=dec_s.get("out"), err=dec_s.get("err")),
@@ -311,4 +317,8 @@ def _probe(ctx, vec, judged_ids, bad_ids):
     got = {m["line"]: m["kinds"] for m in vf.tlc_printed(t.out, "MONVIOL")}
     for i, (_, _, kind) in enumerate(pairs):
         if not t.ok or kind in got.get(2 * i + 1, []) or kind not in got.get(2 * i + 2, []):
-            raise vf.Inconclusive("binding probe failed: falsified vectors were not rejected as expected (%s): %s" % (kind, got))
+            msg = "binding probe failed: falsified vectors were not rejected with at least the expected aspect (%s): %s" % (kind, got)
+            if ctx.violations:      # evidence about the code comes first (exit 1); the probe result becomes a note
+                ctx.notes.append(msg)
+                return
+            raise vf.Inconclusive(msg)
